@@ -117,7 +117,7 @@ fn jit_fixed_cases(tier: Tier) -> Vec<Case> {
     }
     // the baseline-interpreter name hand-over, deep
     for d in [300usize, 520, 700] {
-        let pat = [0usize, 1, 1, 2, 2, 3, 2, 4, 2, 5, 0, 5, 2];
+        let pat = [0usize, 1, 1, 2, 2, 3, 2, 4, 2, 5, 0, 5, 2, 0, 3, 2];
         let seq: Vec<Option<usize>> = (0..d).map(|i| Some(pat[i % pat.len()])).collect();
         push(format!("jshandover{d}"), jit_seq_case(&HANDOVER, &seq, 0, false));
     }
